@@ -302,6 +302,7 @@ add("C15", "c15_kfwitness_multiword_fetch_at_dram_end", "c15::free_step($S, 0x5f
 add("C15", "c15_free_fetch_mapped", "c15::free_fetch($S, true)")
 add("C15", "c15_kfwitness_fetch_unmapped", "c15::free_fetch($S, false)", kf_witness="KF_C15_FETCH_UNWRAP")
 add("C15", "c15_free_interrupt", "c15::free_interrupt($S)", stubs=(STUB_MEM,))
+add("C15", "c15_free_timer_update", "c15::free_timer_update($S)", stubs=(STUB_IRQ,), unwind=6, timeout=900)
 
 STUB_RUN = [
     ("crate::cpu::Cpu::fetch", "crate::harness::c13::ghost_fetch"),
